@@ -45,4 +45,10 @@ pub open spec fn vx_spec_ord_reverse(o: std::cmp::Ordering) -> std::cmp::Orderin
 }
 pub assume_specification [std::cmp::Ordering::reverse] (o: std::cmp::Ordering) -> (r: std::cmp::Ordering)
     ensures r == vx_spec_ord_reverse(o);
+// i64::saturating_mul / saturating_add: the mathematical result clamped to the i64 range
+pub open spec fn vx_clamp_i64(x: int) -> int { if x < i64::MIN { i64::MIN as int } else if x > i64::MAX { i64::MAX as int } else { x } }
+pub assume_specification [i64::saturating_mul] (a: i64, b: i64) -> (r: i64)
+    ensures r as int == vx_clamp_i64(a as int * b as int);
+pub assume_specification [i64::saturating_add] (a: i64, b: i64) -> (r: i64)
+    ensures r as int == vx_clamp_i64(a as int + b as int);
 // ---- end of prelude/std_specs.rs ----
